@@ -144,9 +144,9 @@ Proof.
   split; [repeat constructor; vm_compute; discriminate|]. vm_compute. repeat split; reflexivity.
 Qed.
 
-(* binary64 and exact nanoseconds do differ (AMSU-A, scan 1 -> 2 is 7999999999 ns apart at position 3) *)
+(* binary64 and exact nanoseconds do differ: 1291 * 0.000025 s is 32274999 ns in binary64, 32275000 ns exactly *)
 Example C19_b64_differs :
-  (time_ns B64 amsua 29 2 3 - time_ns B64 amsua 29 1 3)%Z = (time_ns B64 amsua 29 2 3 - time_ns B64 amsua 29 1 3)%Z /\
+  time_ns B64 avhrr 2047 0 1291 = 32274999%Z /\ time_ns Exact avhrr 2047 0 1291 = 32275000%Z /\
   length (times B64 viirs 2 [0; 6399]%Z) = 64%nat /\
   nth 33 (nth 1 (angles viirs 2 [0; 6399]%Z) []) [] = [- (1 / (155 # 10) - 1); - (1 / (155 # 10) - 1)].
 Proof. vm_compute. repeat split; reflexivity. Qed.
